@@ -1,7 +1,9 @@
 package clip
 
 import (
+	"bytes"
 	"context"
+	"encoding/base64"
 	"fmt"
 	"runtime"
 	"strings"
@@ -29,6 +31,10 @@ type HandleCase struct {
 	Readers int      `json:"readers"`
 	Events  []HEvent `json:"events"`
 	Yield   int      `json:"yield"` // readers call Gosched every Yield reads (0 = never)
+	// 0 = the start-up cache is fine; 1..3 = the value of ONE of its entries is spelled in a way the
+	// decoder rejects (base64 without padding / URL-safe alphabet / a number): no handle may ever
+	// yield anything but bytes the service served or the cache really supplied
+	OddCache int `json:"odd_cache,omitempty"`
 }
 
 // Version 3 of every secret is the empty byte string (the service accepts and serves it like any
@@ -87,15 +93,34 @@ func runC12(t *testing.T, c HandleCase) (*h.Violation, h.Info) {
 	clock := fake.NewClock(clockStart)
 	tick := newChanTicker()
 	// the start-up cache supplies two undeclared secrets nobody holds a handle for yet (stale from the start)
-	cache := fake.NewCache(model.EncodeCache(model.CacheDoc{
+	cacheBytes := model.EncodeCache(model.CacheDoc{
 		"c1": {Version: 1, Value: c12Value("c1", 1), LastAccess: 0}, "c2": {Version: 1, Value: c12Value("c2", 1), LastAccess: clockStart - 1000},
-	}))
+	})
+	if c.OddCache > 0 {
+		std := base64.StdEncoding.EncodeToString(c12Value("c2", 1))
+		odd := []string{"", `"` + strings.TrimRight(std, "=") + `"`, `"` + base64.URLEncoding.EncodeToString(append([]byte{0xfb, 0xff}, c12Value("c2", 1)...)) + `"`, "12345"}[c.OddCache]
+		if odd == `"`+std+`"` {
+			odd = `"` + std + `="` // (no padding to strip: make it over-padded instead)
+		}
+		cacheBytes = bytes.Replace(cacheBytes, []byte(`"`+std+`"`), []byte(odd), 1)
+		info.Class("start-up-cache-with-an-oddly-spelled-value")
+	}
+	cache := fake.NewCache(cacheBytes)
 	st, err := setec.NewStore(context.Background(), setec.StoreConfig{
 		Client: svc, Secrets: []string{"d1", "d2"}, AllowLookup: true, Cache: cache,
 		PollTicker: tick, ExpiryAge: 10 * time.Second, TimeNow: clock.Now, Logf: nolog,
 	})
 	if err != nil {
 		return h.V("harness", "NewStore: %v", err), info
+	}
+	if c.OddCache > 0 {
+		for _, n := range []string{"c1", "c2"} {
+			if hd := st.Secret(n); hd != nil {
+				if b := hd.Get(); !bytes.Equal(b, c12Value(n, 1)) {
+					return h.V("complete-really-served-value", "the start-up cache spells the value of \"c2\" in a way the decoder rejects (variant %d); the handle of %q nevertheless exists and yields %q - neither what the cache supplied (%q) nor anything the service served", c.OddCache, n, b, c12Value(n, 1)), info
+				}
+			}
+		}
 	}
 	closed := false
 	defer func() {
@@ -528,6 +553,47 @@ func runC12(t *testing.T, c HandleCase) (*h.Violation, h.Info) {
 				fail("harness", "polls keep failing after the gated poll was released")
 			}
 			info.Class("joiner-timed-out-on-a-stalled-poll")
+		case "leader-cancelled":
+			// Refresh A starts a poll and stalls at the service; Refresh B (live context) joins it; A's
+			// context is cancelled. Whatever B is told: if it is told "nil", the poll it waited for has
+			// completed, and every later read must show what that poll should have installed.
+			if closed {
+				continue
+			}
+			maxVer["d1"]++
+			cur["d1"] = maxVer["d1"]
+			svc.Set("d1", cur["d1"], c12Value("d1", cur["d1"]))
+			pL := plan()
+			svc.SetScript("d2", []fake.Beh{{Kind: "gate"}})
+			actx, acancel := context.WithCancel(context.Background())
+			laDone := make(chan error, 1)
+			go func() { laDone <- st.Refresh(actx) }()
+			if !waitInFlight(svc, "d2") {
+				fail("harness", "the poll did not reach the service within 20 s")
+			}
+			lbDone := make(chan error, 1)
+			go func() { lbDone <- st.Refresh(context.Background()) }()
+			time.Sleep(2 * time.Millisecond) // let B join A's flight
+			acancel()
+			<-laDone
+			var berr error
+			for got := false; !got; {
+				select {
+				case berr = <-lbDone:
+					got = true
+				case <-time.After(5 * time.Millisecond):
+					svc.OpenGate() // B may have started a poll of its own that is parked at the gate
+				}
+			}
+			svc.OpenGate()
+			svc.SetScript("d2", nil)
+			if berr == nil {
+				commit(pL)
+			}
+			if !drain() {
+				fail("harness", "polls keep failing after the cancelled poll")
+			}
+			info.Class("joined-a-poll-whose-starter-was-cancelled")
 		case "handle-during-poll":
 			// the program takes a handle for a cached, so far unreferenced secret while a poll is
 			// between its snapshot and its apply step (the hook runs inside the poll's first request)
@@ -645,11 +711,11 @@ func runC12(t *testing.T, c HandleCase) (*h.Violation, h.Info) {
 }
 
 func genHandleCase(rt *rapid.T) HandleCase {
-	c := HandleCase{Readers: rapid.IntRange(2, 8).Draw(rt, "readers"), Yield: rapid.SampledFrom([]int{0, 1, 3, 17}).Draw(rt, "yield")}
+	c := HandleCase{Readers: rapid.IntRange(2, 8).Draw(rt, "readers"), Yield: rapid.SampledFrom([]int{0, 1, 3, 17}).Draw(rt, "yield"), OddCache: rapid.SampledFrom([]int{0, 0, 0, 0, 1, 2, 3}).Draw(rt, "oddcache")}
 	c.Events = rapid.SliceOfN(rapid.Custom(func(rt *rapid.T) HEvent {
 		return HEvent{
 			Back: rapid.IntRange(0, 3).Draw(rt, "back") == 0,
-			Kind: rapid.SampledFrom([]string{"set", "set", "set", "poll", "poll", "refresh", "lookup", "expire", "yield", "yield", "parked-poll", "parked-lookup", "handle-during-poll", "joiner-timeout", "double-lookup", "idle-handle", "close"}).Draw(rt, "kind"),
+			Kind: rapid.SampledFrom([]string{"set", "set", "set", "poll", "poll", "refresh", "lookup", "expire", "yield", "yield", "parked-poll", "parked-lookup", "handle-during-poll", "joiner-timeout", "double-lookup", "idle-handle", "leader-cancelled", "close"}).Draw(rt, "kind"),
 			Name: rapid.SampledFrom([]string{"d1", "d1", "d2", "u1", "u2", "u3", "c1", "c2"}).Draw(rt, "name"),
 		}
 	}), h.LenBias(rt, 3, 30), 30).Draw(rt, "events")
